@@ -92,17 +92,17 @@ SCANNER_TRUST = ['input model: Input::rem()/avail()/buffered()/cap() are ghost m
                  'ASSUMED (A7) for BufferedInput: the character source is a deterministic, fused, finite iterator (its future output is a function of its state); rewrite R11 routes its three next() calls through a helper carrying that contract, because Verus specifies Iterator::next through prophetic values, which cannot appear in decreases clauses',
                  'scanner functions not yet under contract are external_body: their callers learn nothing about them',
                  'ASSUMED (A6): #[derive(Clone)] of SimpleKey copies every field - one assume() after the clone in fetch_value (derived code inside the crate cannot carry a contract)',
-                 'ASSUMED frame of scan_block_scalar / scan_flow_scalar / scan_plain_scalar (scalar_scan_post: only the position moves, truthfully; token queue and simple keys untouched; at least one character consumed) - their helpers are verified, their main loops are not yet',
+                 'ASSUMED frame of scan_block_scalar in the quick tier only (scalar_scan_post: only the position moves, truthfully; token queue and simple keys untouched; at least one character consumed); the thorough tier verifies its body; scan_flow_scalar and scan_plain_scalar are verified in both tiers',
                  'ASSUMED (A2): token_count + 8 fits in usize (axiom_token_count_fits)',
                  'rewrites R8 (`&mut self.simple_keys` -> `self.simple_keys.iter_mut()`, what <&mut Vec as IntoIterator>::into_iter calls) and R9 (the one format! error message evaluated in an external_body helper)']
 
 PROPS['C04'] = {
     'units': ['parser'],
     'level': 'proof',
-    'claim': 'Escapes: Scanner::resolve_flow_scalar_escape_sequence is verified against yaml_escape / hex_value / is_scalar_value written from YAML 1.2 section 5.7: every named escape yields its code point and consumes exactly two characters; \\x \\u \\U need exactly 2/4/8 hex digits forming a Unicode scalar value and yield that code point; every other escape character and every truncated or non-scalar hex escape is an Err. Quoted scalars: consume_flow_scalar_non_whitespace_chars is verified against the recursive oracle nw_spec (decoded text of a run of non-blank characters, quote doubling, escaped line break); the main loop of scan_flow_scalar keeps string == the concatenation of nw_spec texts and qws_text(white-space run) where qws_text is the folding rule of the statement (one break -> space, n+1 breaks -> n line feeds, blanks around a break dropped, an escaped break joins without a space). Plain scalars: scan_plain_scalar ensures that the token text is pfs(characters consumed).out, pfs being the left-to-right folding oracle (content verbatim, interior blanks kept, one break -> space, n+1 breaks -> n line feeds, CR LF once, trailing white space dropped), and that content characters are exactly those sp_plain_ok admits. char class predicates equal their spec classes. For all inputs, no bound.',
+    'claim': 'Escapes: Scanner::resolve_flow_scalar_escape_sequence is verified against yaml_escape / hex_value / is_scalar_value written from YAML 1.2 section 5.7: every named escape yields its code point and consumes exactly two characters; \\x \\u \\U need exactly 2/4/8 hex digits forming a Unicode scalar value and yield that code point; every other escape character and every truncated or non-scalar hex escape is an Err. Quoted scalars: consume_flow_scalar_non_whitespace_chars is verified against the recursive oracle nw_spec (decoded text of a run of non-blank characters, quote doubling, escaped line break); scan_flow_scalar ensures that the token text is qfs(characters after the opening quote), the whole-token oracle that alternates nw_spec runs with qws_text(white-space run) up to the closing quote, qws_text being the folding rule of the statement (one break -> space, n+1 breaks -> n line feeds, blanks around a break dropped, an escaped break joins without a space). Plain scalars: scan_plain_scalar ensures that the token text is pfs(characters consumed).out, pfs being the left-to-right folding oracle (content verbatim, interior blanks kept, one break -> space, n+1 breaks -> n line feeds, CR LF once, trailing white space dropped), and that content characters are exactly those sp_plain_ok admits. char class predicates equal their spec classes. For all inputs, no bound.',
     'technique': 'Verus: function-against-spec-function postconditions (yaml_escape table, hex_value recursion, nw_spec, qws_text, pfs), ghost accumulator for the quoted-scalar loop, opaque value-level invariant plain_rel_v with one lemma per transition for the plain-scalar loops',
-    'not_decided': ['scan_flow_scalar: the text clause lives at loop level (string == g_acc at every iteration), the final string.into() of the quoted scalar is not routed through R13 yet', 'plain scalars: the clause is stated for a scalar that starts at a non-blank character (every call site in the scanner)', 'next_can_be_plain_scalar: default implementation verified against sp_plain_ok; the StrInput override is byte-indexed (A8 + bounded Kani differential, see C10)'],
-    'trust': SCANNER_TRUST + ['R13: `string.into()` (String -> Cow<str>) in scan_plain_scalar is evaluated by the external_body helper verif_string_into_cow with the ASSUMED contract r@ == s@ (vstd has no specification for the blanket Into)'],
+    'not_decided': ['quoted scalars: Ok implies text == qfs(input); the converse (qfs defined implies Ok) is not claimed - document markers, indentation and trailing-content checks reject more', 'plain scalars: the clause is stated for a scalar that starts at a non-blank character (every call site in the scanner)', 'next_can_be_plain_scalar: default implementation verified against sp_plain_ok; the StrInput override is byte-indexed (A8 + bounded Kani differential, see C10)'],
+    'trust': SCANNER_TRUST + ['R13: `string.into()` (String -> Cow<str>) in scan_plain_scalar and scan_flow_scalar is evaluated by the external_body helper verif_string_into_cow with the ASSUMED contract r@ == s@ (vstd has no specification for the blanket Into)'],
 }
 PROPS['C10'] = {
     'units': ['parser'],
